@@ -1019,6 +1019,12 @@ def run_program(cmds, message, env, col, cls):
     except Exception as ex:
         exc = ex
     log = mon.end()
+    case = {'kind': 'program', 'cmds': cmds_json(cmds), 'message': message.hex() if message else None, 'env': _env_json(env)}
+    return judge_evaluation(cmds, message, env, col, cls, case, res, exc, lib_stack, log, mon)
+
+
+def judge_evaluation(cmds, message, env, col, cls, case, res, exc, lib_stack, log, mon, where=''):
+    """One observed Script.evaluate() (verdict, exception, final stack, step log) against the reference run on `cmds`."""
     valid = exc is None and bool(res)
     env = env or {}
     ctx_args = dict(digest=message, locktime=env.get('locktime'), sequence=env.get('sequence'), version=env.get('version'))
@@ -1029,9 +1035,7 @@ def run_program(cmds, message, env, col, cls):
     unimpl = [c for c in executed if c not in impl]
     nest = _max_nesting(cmds)
     outcome = ('valid' if valid else 'raised' if exc is not None else 'invalid') + '/' + ('ok' if R.ok else 'fail')
-    col.case(cls, nontrivial=(cls, sorted(set(executed)), nest, outcome, len(cmds) // 5),
-             sample={'kind': 'program', 'cmds': cmds_json(cmds), 'message': message.hex() if message else None, 'env': _env_json(env)})
-    case = {'kind': 'program', 'cmds': cmds_json(cmds), 'message': message.hex() if message else None, 'env': _env_json(env)}
+    col.case(cls, nontrivial=(cls, sorted(set(executed)), nest, outcome, len(cmds) // 5), sample=case)
     if valid:
         col.probe('program-valid')
     if R.ok:
@@ -1061,6 +1065,7 @@ def run_program(cmds, message, env, col, cls):
         key = ('C19/' + mech) if mech else None
         desc = 'both valid but the final stack differs'
     desc += '; program %s' % _short_cmds(cmds)
+    desc += where
     if mech:
         desc += '; attributed to ' + mech
     col.violation(key, desc, case,
@@ -1540,6 +1545,174 @@ def run_spends(spec, col):
                     run_program(cmds, digest, env, col, 'spend/multisig/%s/%s%s' % (label, envname, form))
 
 
+# ====================================================================== sequences on one Script object
+def _ser(cmds):
+    from vf.refs import codec
+    return b''.join(bytes([c]) if isinstance(c, int) else codec.push_data(bytes(c)) for c in cmds)
+
+
+def _flat_commands(s):
+    """the command list the object holds right now (data only), or None when it is not a flat list of ints/bytes"""
+    cm = getattr(s, 'commands', None)
+    if not isinstance(cm, list) or not all(isinstance(c, (int, bytes, bytearray)) and not isinstance(c, bool) for c in cm):
+        return None
+    return [c if isinstance(c, int) else bytes(c) for c in cm]
+
+
+def _observe(s, message, env, mon):
+    mon.begin()
+    res = exc = None
+    try:
+        res = s.evaluate(message=message, env_data=env)
+    except Exception as ex:
+        exc = ex
+    log = mon.end()
+    st = list(s.stack) if isinstance(getattr(s, 'stack', None), list) else None
+    return res, exc, st, log
+
+
+def run_sequence(steps, message, env, col, cls):
+    """A sequence of operations on ONE Script object: {'do': 'new'|'eval'|'add'|'append', 'cmds': [...], 'via': 'list'|'parse'}.
+    Every 'eval' is judged against the reference run on the command list the object holds at that moment; it must also
+    agree with a fresh Script built from that same list (evaluate() has no memory)."""
+    mon = monitor(col)
+    from bitcoinlib.scripts import Script
+    col.probe('sequence')
+    case = {'kind': 'sequence', 'steps': [dict(st, cmds=cmds_json(st['cmds'])) if 'cmds' in st else dict(st) for st in steps],
+            'message': message.hex() if message else None, 'env': _env_json(env)}
+
+    def build(cmds, via):
+        if via == 'parse':
+            return Script.parse_bytes(_ser(cmds), strict=False)
+        return Script(list(cmds))
+
+    s = None
+    expected = None          # the harness's own idea of the command list (only for objects built from lists)
+    nev = 0
+    for i, st in enumerate(steps):
+        do = st['do']
+        try:
+            if do == 'new':
+                s = build(st['cmds'], st.get('via', 'list'))
+                expected = list(st['cmds']) if st.get('via', 'list') == 'list' else None
+                continue
+            if do == 'add':
+                s = s + build(st['cmds'], st.get('via', 'list'))
+                expected = (expected + list(st['cmds'])) if expected is not None and st.get('via', 'list') == 'list' else None
+                continue
+            if do == 'append':
+                s.commands.extend(list(st['cmds']))
+                expected = (expected + list(st['cmds'])) if expected is not None else None
+                continue
+        except Exception:
+            col.probe('sequence-build-raised')      # constructing / adding scripts is not what C19 judges
+            return
+        if s is None:
+            return
+        now = _flat_commands(s)
+        if now is None:
+            col.probe('sequence-skipped-nested')
+            return
+        if expected is not None and not _cmds_eq(now, [0 if c == b'' else c for c in expected]) and not _cmds_eq(now, expected):
+            col.violation(None, 'Script.commands after %s is not the concatenation of the parts' % [x['do'] for x in steps[:i]],
+                          case, cmds_json(now), cmds_json(expected))
+            return
+        nev += 1
+        col.probe('sequence-eval')
+        res, exc, st_lib, log = _observe(s, message, env, mon)
+        try:
+            fres, fexc, fst, _flog = _observe(Script(list(now)), message, env, mon)
+        except Exception as ex:
+            fres, fexc, fst = None, ex, None
+        same = (bool(res) == bool(fres)) and ((exc is None) == (fexc is None)) and (type(exc) is type(fexc)) and \
+               (not (exc is None and res) or st_lib == fst)
+        where = '; evaluation #%d of one Script object after %s' % (nev, '->'.join(x['do'] + (':' + x['via'] if x.get('via') else '') for x in steps[:i]))
+        if not same:
+            col.probe('sequence-state-dependent')
+            R = si.verify(now, si.Ctx(digest=message, locktime=(env or {}).get('locktime'), sequence=(env or {}).get('sequence'), version=(env or {}).get('version')))
+            fa = exc is None and bool(res) and not R.ok
+            col.violation(None, '%sScript.evaluate() depends on the object\'s history: a reused object gives %s, a fresh Script with the same commands %s (consensus: %s); commands now %s%s' % (
+                'FALSE ACCEPT: ' if fa else '', _verdict(res, exc), _verdict(fres, fexc), 'valid' if R.ok else 'invalid (%s)' % R.reason, _short_cmds(now), where),
+                case, {'reused': _verdict(res, exc), 'stack': hx(st_lib) if st_lib is not None and all_bytes(st_lib) else repr(st_lib)[:200]},
+                {'fresh': _verdict(fres, fexc), 'consensus_valid': R.ok, 'stack': hx(fst) if fst is not None and all_bytes(fst) else repr(fst)[:200]})
+            continue
+        judge_evaluation(now, message, env, col, '%s/eval%d' % (cls, nev), case, res, exc, st_lib, log, mon, where=where)
+
+
+def _verdict(res, exc):
+    return 'raised %s' % type(exc).__name__ if exc is not None else ('valid' if res else 'invalid')
+
+
+SEQ_SHAPES = [
+    ('eval-add-eval', lambda a, b: [{'do': 'new', 'cmds': a, 'via': 'list'}, {'do': 'eval'}, {'do': 'add', 'cmds': b, 'via': 'list'}, {'do': 'eval'}]),
+    ('eval-append-eval', lambda a, b: [{'do': 'new', 'cmds': a, 'via': 'list'}, {'do': 'eval'}, {'do': 'append', 'cmds': b}, {'do': 'eval'}]),
+    ('parse-eval-add-eval', lambda a, b: [{'do': 'new', 'cmds': a, 'via': 'parse'}, {'do': 'eval'}, {'do': 'add', 'cmds': b, 'via': 'list'}, {'do': 'eval'}]),
+    ('eval-addparsed-eval-eval', lambda a, b: [{'do': 'new', 'cmds': a, 'via': 'list'}, {'do': 'eval'}, {'do': 'add', 'cmds': b, 'via': 'parse'}, {'do': 'eval'}, {'do': 'eval'}]),
+    ('add-eval-eval', lambda a, b: [{'do': 'new', 'cmds': a, 'via': 'list'}, {'do': 'add', 'cmds': b, 'via': 'list'}, {'do': 'eval'}, {'do': 'eval'}]),
+    ('eval-eval-add-eval-append-eval', lambda a, b: [{'do': 'new', 'cmds': a, 'via': 'list'}, {'do': 'eval'}, {'do': 'eval'}, {'do': 'add', 'cmds': b[:len(b) // 2], 'via': 'list'},
+                                                     {'do': 'eval'}, {'do': 'append', 'cmds': b[len(b) // 2:]}, {'do': 'eval'}]),
+]
+
+
+def run_sequences(spec, col):
+    """evaluate -> extend -> evaluate on one object: unlock+lock composition of the standard spends, hash locks and
+    arithmetic locks with right and wrong solutions, and random programs cut at a random point."""
+    rnd = random.Random('%s-seq-%d-%d' % (ID, spec['seed'], spec['shard']))
+    sh, ns = spec['shard'], spec['nshard']
+    env = {'sequence': 10, 'locktime': 1000, 'version': 2}
+    jobs = []
+    # fixed unlock / lock pairs (both verdicts, both directions of a stale result)
+    pre = b'secret-%d' % spec['seed']
+    h256 = ec.sha256(pre)
+    h160 = ec.hash160(pre)
+    fixed = [
+        ('hashlock-sha256-right', [pre], [0xa8, h256, 0x87]), ('hashlock-sha256-wrong', [pre + b'x'], [0xa8, h256, 0x87]),
+        ('hashlock-hash160-right', [pre], [0xa9, h160, 0x88, 0x51]), ('hashlock-hash160-wrong', [b'\x01'], [0xa9, h160, 0x88, 0x51]),
+        ('sum-right', [0x52, 0x53], [0x93, 0x55, 0x87]), ('sum-wrong', [0x52, 0x54], [0x93, 0x55, 0x87]),
+        ('true-then-verify-false', [0x51], [0, 0x69]), ('false-then-true', [0], [0x51]), ('true-then-false', [0x51], [0]),
+        ('true-then-return', [0x51], [0x6a]), ('if-split', [0x51, 0x63, 0x52], [0x67, 0, 0x68]), ('empty-then-true', [], [0x51]),
+        ('true-then-drop', [0x51], [0x75]), ('nonstandard-unlock', [0x51, 0x52, 0x93], [0x53, 0x9c]), ('wrong-nonstandard-unlock', [0x51, 0x51, 0x93], [0x53, 0x9c]),
+    ]
+    for label, a, b in fixed:
+        for sname, shape in SEQ_SHAPES:
+            jobs.append(('sequence/%s/%s' % (label, sname), shape(a, b), DIGEST, env))
+    # standard spends: the unlocking script is evaluated on its own first, then unlock + lock
+    kr = Keyring(rnd, 4)
+    digest = rnd.randbytes(32)
+    for i in range(2):
+        sv = sig_variants(kr, i, digest, rnd)
+        pv = pub_variants(kr, i)
+        for sn in ('valid', 'wrong-digest', 'wrong-key', 's-bitflip', 'empty', 'valid-hashtype-83'):
+            for pn in ('compressed', 'uncompressed'):
+                sg, pb = sv[sn], pv[pn]
+                jobs.append(('p2pk/sig-%s/pub-%s' % (sn, pn), [sg], [pb, 0xac]))
+                jobs.append(('p2pkh/sig-%s/pub-%s' % (sn, pn), [sg, pb], [0x76, 0xa9, ec.hash160(pb), 0x88, 0xac]))
+                jobs.append(('p2pkh-other-key/sig-%s/pub-%s' % (sn, pn), [sg, pb], [0x76, 0xa9, ec.hash160(kr.pub[(i + 1) % 4]), 0x88, 0xac]))
+    spend_jobs = []
+    for k, (label, a, b) in enumerate(j for j in jobs if len(j) == 3):
+        sname, shape = SEQ_SHAPES[k % len(SEQ_SHAPES)]
+        spend_jobs.append(('sequence/spend/%s/%s' % (label, sname), shape(a, b), digest, None))
+        sname, shape = SEQ_SHAPES[(k + 1) % 2]
+        spend_jobs.append(('sequence/spend/%s/%s' % (label, sname), shape(a, b), digest, None))
+    jobs = [j for j in jobs if len(j) == 4] + spend_jobs
+    for label, st in multisig_stacks(kr, digest, rnd)[:12]:
+        body = [(_n(si.num_decode(x)) if (len(x) <= 1 and (x == b'' or 1 <= x[0] <= 16)) else x) for x in st]
+        cut = next((k for k, c in enumerate(body) if isinstance(c, int) and 0x51 <= c <= 0x60), 1)
+        for sname, shape in SEQ_SHAPES[:2]:
+            jobs.append(('sequence/spend/multisig/%s/%s' % (label, sname), shape(body[:cut], body[cut:] + [0xae]), digest, {'redeemscript': b'\x51'}))
+    for k, (cls, steps, msg, e) in enumerate(jobs):
+        if k % ns == sh:
+            run_sequence(steps, msg, e, col, cls)
+    # random programs cut in two
+    for k in range(spec.get('n_sequences', 60)):
+        cmds = gen_program(rnd, spec['maxlen'], None, DIGEST)
+        if len(cmds) < 2:
+            cmds = cmds + [0x51]
+        cut = rnd.randint(0, len(cmds) - 1)
+        sname, shape = SEQ_SHAPES[k % len(SEQ_SHAPES)]
+        run_sequence(shape(cmds[:cut], cmds[cut:]), DIGEST, env, col, 'sequence/random/%s' % sname)
+
+
 # ====================================================================== plan / shards / replay
 def replay(case, col):
     try:
@@ -1564,6 +1737,13 @@ def replay(case, col):
             env['redeemscript'] = bytes.fromhex(env['redeemscript'])
         msg = bytes.fromhex(case['message']) if case.get('message') else None
         run_program(cmds_unjson(case['cmds']), msg, env or None, col, 'replay')
+    elif case.get('kind') == 'sequence':
+        env = dict(case.get('env') or {})
+        if isinstance(env.get('redeemscript'), str):
+            env['redeemscript'] = bytes.fromhex(env['redeemscript'])
+        msg = bytes.fromhex(case['message']) if case.get('message') else None
+        steps = [dict(st, cmds=cmds_unjson(st['cmds'])) if 'cmds' in st else dict(st) for st in case['steps']]
+        run_sequence(steps, msg, env or None, col, 'replay')
 
 
 def plan(tier, seed, scale=1.0):
@@ -1574,6 +1754,7 @@ def plan(tier, seed, scale=1.0):
         specs.append({'shard': i, 'nshard': nshard, 'depth': 4 if thorough else 3,
                       'n_programs': int((18000 if thorough else 560) * scale),
                       'n_spends': int((900 if thorough else 70) * scale),
+                      'n_sequences': int((3000 if thorough else 60) * scale),
                       'maxlen': 60 if thorough else 20, 'sig_reps': 3 if thorough else 1})
     return specs
 
@@ -1590,6 +1771,7 @@ def run_shard(spec, col):
     col.require('program-valid', 10)
     col.require('program-consensus-valid', 10)
     col.require('exhaustive-stacks', 1)
+    col.require('sequence-eval', 40)
     monitor(col)
     check_baseline(col)
     for name in step_methods(col):
@@ -1599,3 +1781,4 @@ def run_shard(spec, col):
     run_lifted(spec, col)
     run_programs(spec, col)
     run_spends(spec, col)
+    run_sequences(spec, col)
